@@ -314,10 +314,9 @@ func (f *File) enterWriteMode() error {
 			}
 		}
 
-		if !f.flags.Append {
-			if _, err := f.writeBuf.Seek(pos, io.SeekStart); err != nil {
-				return err
-			}
+		// `O_APPEND` only affects where writes go (see `Write`), not the cursor that reads and seeks use
+		if _, err := f.writeBuf.Seek(pos, io.SeekStart); err != nil {
+			return err
 		}
 	}
 
